@@ -215,3 +215,11 @@ def r09_8(ctx):
 def r09_9(ctx):
     from .c06 import check_coupling
     check_coupling(ctx, only_localisable=True)
+
+
+@rule("R09.10", min_instances=12, desc="the dynamics of interval k see the parameter columns of interval k under every method: model slot tables of the collocation defect equations and of the shooting step calls (shared with C02 / C01)")
+def r09_10(ctx):
+    from .c02 import r02_2
+    from .c01 import r01_4
+    r02_2(ctx)
+    r01_4(ctx)
